@@ -26,6 +26,8 @@ def realise(d):
     1e-9 ... 1e6) multiplies the result."""
     g = d.get("gain", 1.0)
     x = _realise(d)
+    if d.get("zero_imag") and np.iscomplexobj(x):
+        x = x.real.astype(complex)      # real-valued samples declared complex
     return x if g == 1.0 else x * g
 
 
@@ -105,6 +107,8 @@ def _realise(d):
         x = rng.integers(lo, hi + 1, n)
         if cplx:
             x = x + 1j * rng.integers(lo, hi + 1, n)
+        elif d.get("idtype"):
+            x = x.astype(d["idtype"])      # samples as an acquisition system delivers them (int16 PCM, uint8 ...)
         return x
     elif kind == "dyn":
         # large dynamic range: a tone 1e6 times another + small noise
@@ -135,8 +139,11 @@ def signal(draw, min_n=1, max_n=64, dtype="any",
         # the data may be expressed in any unit (1e-9 ... 1e6): one case in six is not O(1).
         # Rare branch = top values of the selector, so that shrinking goes to gain 1.
         u = draw(st.integers(0, 11))
-        if u >= 10:
-            d["gain"] = draw(st.sampled_from([1e-9, 1e6, 1e-4, 2000.0]))
+        if u >= 9:
+            d["gain"] = draw(st.sampled_from([1e-9, 1e6, 1e-4, 2000.0, 1e-9]))
+        if cplx and draw(st.integers(0, 7)) == 7:
+            # complex dtype, imaginary part identically zero: still *complex data* (two-sided, NFFT values)
+            d["zero_imag"] = True
     if kind == "explicit":
         if n > explicit_max:
             d["kind"] = kind = "noise"
@@ -170,6 +177,7 @@ def signal(draw, min_n=1, max_n=64, dtype="any",
         d["noise"] = draw(st.sampled_from([0.1, 0.5, 1.0]))
     elif kind == "int":
         d["range"] = draw(st.sampled_from([[-9, 9], [0, 5], [-100, 100]]))
+
     elif kind == "dyn":
         d["f"] = [draw(st.floats(0.05, 0.2)), draw(st.floats(0.25, 0.45))]
     return d
